@@ -43,6 +43,7 @@ type Contract struct {
 	Profiles []string
 	Requires []Clause
 	Ensures  []Clause
+	AssumeEnsures []Clause // ghost effects declared by fiat: assumed at call sites, not checked against the body
 	Lets     []Clause // Label = name
 	Modifies []*Node
 	Preserves []*Node
@@ -57,6 +58,8 @@ type Contract struct {
 	Line     int
 	Uses     []Clause // "assert"/"use" hints (checked then assumed) at entry
 	NoAuto   bool
+	AtCall   map[string][]Clause // callee short name -> obligations evaluated in the caller's scope at each call
+	ModNone  bool
 	autoApplied bool
 }
 
@@ -168,6 +171,26 @@ func applyDirective(c *Contract, t string, line int) error {
 			return err
 		}
 		c.Ensures = append(c.Ensures, cl)
+	case "at_call":
+		// at_call <Callee> requires [label:] E
+		if len(f) < 4 || f[2] != "requires" {
+			return fmt.Errorf("at_call <Callee> requires E")
+		}
+		idx := strings.Index(t, " requires ") + len(" requires ")
+		cl, err := mk(strings.TrimSpace(t[idx:]))
+		if err != nil {
+			return err
+		}
+		if c.AtCall == nil {
+			c.AtCall = map[string][]Clause{}
+		}
+		c.AtCall[f[1]] = append(c.AtCall[f[1]], cl)
+	case "assume_ensures":
+		cl, err := mk(rest)
+		if err != nil {
+			return err
+		}
+		c.AssumeEnsures = append(c.AssumeEnsures, cl)
 	case "use":
 		cl, err := mk(rest)
 		if err != nil {
@@ -187,6 +210,10 @@ func applyDirective(c *Contract, t string, line int) error {
 	case "modifies":
 		if strings.TrimSpace(rest) == "*" {
 			c.ModAll = true
+			return nil
+		}
+		if strings.TrimSpace(rest) == "nothing" {
+			c.ModNone = true
 			return nil
 		}
 		for _, part := range splitTop(rest) {
